@@ -7,7 +7,10 @@ type MaxNode struct {
 	Max   int
 }
 
-func (self *MaxNode) CheckContainerPreConstraints(r *ChildRequest) (bool, error) {
+// counts the containers and lists that exist and are visible to the read (checked
+// after the child was selected and every other constraint let it pass), not the
+// definitions that were merely probed
+func (self *MaxNode) CheckContainerPostConstraints(r ChildRequest, child *Selection) (bool, error) {
 	if r.IsNavigation() {
 		return true, nil
 	}
